@@ -224,6 +224,15 @@ def units():
              "trusted": ["E1 snprintf model", "printf (CBMC built-in)"]}
         u.update(extra)
         U.append(u)
+    for kind in ("write", "read"):
+        for ch, bw in ((2, 2), (3, 3), (1, 1), (2, 4)):
+            U.append({"name": "sndfile.sf_%s_raw.ch%d.bw%d" % (kind, ch, bw),
+                      "props": ["C05", "C09", "C08", "C15", "C19"] + (["C04"] if kind == "write" else ["C06"]),
+                      "harness": "sndfile_raw.harness.c", "entry": "h_raw", "enforce": "sf_%s_raw" % kind,
+                      "function": "sndfile.c:sf_%s_raw" % kind, "replace": ["psf_file_valid", "psf_memset", "psf_fread", "psf_fwrite"],
+                      "defines": ["-DUNIT_%s_RAW" % kind.upper(), "-DCH=%d" % ch, "-DBYTEW=%d" % bw], "cbmc_flags": ["--object-bits", "12"],
+                      "timeout": 600, "kind": "enumerated(channels=%d, bytewidth=%d)" % (ch, bw),
+                      "tier": "quick" if (ch, bw) in ((2, 2), (3, 3)) else "thorough"})
     callee = ["verif_log_printf", "psf_file_valid", "sf_version_string", "psf_get_format_simple", "psf_get_format_major",
               "psf_get_format_subtype", "psf_get_format_info", "psf_get_format_simple_count", "psf_get_format_major_count",
               "psf_get_format_subtype_count", "psf_calc_signal_max", "psf_calc_max_all_channels", "psf_get_signal_max",
